@@ -20,6 +20,7 @@ type SolveResult struct {
 	Seconds float64
 	Model   string
 	Raw     string
+	variant string
 }
 
 type solverSpec struct {
@@ -35,7 +36,19 @@ var solvers = []solverSpec{
 	}},
 }
 
+// procSlots bounds the number of solver processes running at once.
+var procSlots = make(chan struct{}, 16)
+
 func runOne(ctx context.Context, sp solverSpec, file string, timeoutS int) SolveResult {
+	select {
+	case procSlots <- struct{}{}:
+		defer func() { <-procSlots }()
+	case <-ctx.Done():
+		return SolveResult{Solver: sp.name, Status: "unknown"}
+	}
+	if ctx.Err() != nil {
+		return SolveResult{Solver: sp.name, Status: "unknown"}
+	}
 	argv := sp.argv(file, timeoutS)
 	cctx, cancel := context.WithTimeout(ctx, time.Duration(timeoutS+2)*time.Second)
 	defer cancel()
@@ -49,6 +62,10 @@ func runOne(ctx context.Context, sp solverSpec, file string, timeoutS int) Solve
 	txt := out.String()
 	first := strings.TrimSpace(strings.SplitN(txt, "\n", 2)[0])
 	res := SolveResult{Solver: sp.name, Seconds: el, Raw: txt, Status: "unknown"}
+	if strings.HasPrefix(first, "(error") || strings.Contains(first, "Parse Error") {
+		res.Status = "error"
+		return res
+	}
 	switch first {
 	case "unsat":
 		res.Status = "unsat"
@@ -61,46 +78,140 @@ func runOne(ctx context.Context, sp solverSpec, file string, timeoutS int) Solve
 	return res
 }
 
-// Solve discharges one query text. workDir receives the .smt2 file.
+// Solve discharges one query (possibly with a lemma variant). workDir receives the .smt2 files.
 func Solve(workDir, name, query string, timeoutS int, solverTime *SolverStats) SolveResult {
-	file := filepath.Join(workDir, sanitize(name)+".smt2")
-	if len(file) > 200 {
-		file = filepath.Join(workDir, fmt.Sprintf("q%x.smt2", hashString(name)))
-	}
-	if err := os.WriteFile(file, []byte(query), 0o644); err != nil {
-		return SolveResult{Status: "unknown", Raw: err.Error()}
+	return SolveHint(workDir, name, query, timeoutS, solverTime, "")
+}
+
+var (
+	hintMu   sync.Mutex
+	hintWins = map[string]string{} // hint key -> "solver/variant" that won last time
+)
+
+// SolveHint is Solve with a key under which the winning solver/variant is
+// remembered, so that sibling obligations try it first.
+func SolveHint(workDir, name, query string, timeoutS int, solverTime *SolverStats, hint string) SolveResult {
+	variants := strings.Split(query, variantSep)
+	var files []string
+	for i, q := range variants {
+		file := filepath.Join(workDir, fmt.Sprintf("%s_%d.smt2", sanitize(name), i))
+		if i == 0 {
+			file = filepath.Join(workDir, sanitize(name)+".smt2")
+		}
+		if err := os.WriteFile(file, []byte(q), 0o644); err != nil {
+			return SolveResult{Status: "unknown", Raw: err.Error()}
+		}
+		files = append(files, file)
 	}
 	ctx := context.Background()
-	// stage 1: z3-new alone with a short budget
-	s1 := 3
+	type task struct {
+		sp   solverSpec
+		file string
+	}
+	taskID := func(t task) string { return t.sp.name + "/" + filepath.Base(t.file)[len(filepath.Base(t.file))-7:] }
+	prefer := func(ts []task) []task {
+		if hint == "" {
+			return ts
+		}
+		hintMu.Lock()
+		w := hintWins[hint]
+		hintMu.Unlock()
+		if w == "" {
+			return ts
+		}
+		out := make([]task, 0, len(ts))
+		for _, t := range ts {
+			if t.sp.name+"/"+variantOf(t.file) == w {
+				out = append(out, t)
+			}
+		}
+		for _, t := range ts {
+			if t.sp.name+"/"+variantOf(t.file) != w {
+				out = append(out, t)
+			}
+		}
+		return out
+	}
+	_ = taskID
+	race := func(tasks []task, to int) (SolveResult, bool) {
+		tasks = prefer(tasks)
+		rctx, cancel := context.WithCancel(ctx)
+		defer cancel()
+		ch := make(chan SolveResult, len(tasks))
+		for i, t := range tasks {
+			t := t
+			delay := time.Duration(i) * 500 * time.Millisecond
+			go func() {
+				// staggered start: most goals fall to the first solver within a few hundred ms
+				select {
+				case <-time.After(delay):
+				case <-rctx.Done():
+					ch <- SolveResult{Solver: t.sp.name, Status: "unknown"}
+					return
+				}
+				r := runOne(rctx, t.sp, t.file, to)
+				r.variant = variantOf(t.file)
+				ch <- r
+			}()
+		}
+		var last SolveResult
+		var errRes *SolveResult
+		for range tasks {
+			r := <-ch
+			solverTime.add(r)
+			if r.Status == "unsat" || r.Status == "sat" {
+				if hint != "" {
+					hintMu.Lock()
+					hintWins[hint] = r.Solver + "/" + r.variant
+					hintMu.Unlock()
+				}
+				return r, true
+			}
+			if r.Status == "error" && errRes == nil {
+				rr := r
+				errRes = &rr
+			}
+			last = r
+		}
+		if errRes != nil {
+			return *errRes, true
+		}
+		last.Status = "unknown"
+		return last, false
+	}
+	s1 := 4
 	if timeoutS < s1 {
 		s1 = timeoutS
 	}
-	r := runOne(ctx, solvers[0], file, s1)
-	solverTime.add(r)
-	if r.Status != "unknown" {
+	// stage 0: quantifier-free queries go to the fastest-starting solver alone
+	if !strings.Contains(variants[0], "(forall ") && !strings.Contains(variants[0], "(exists ") {
+		if r, done := race([]task{{solvers[1], files[0]}}, s1); done {
+			return r
+		}
+	}
+	// stage 1: both z3 versions on every variant, short budget
+	var t1 []task
+	if len(files) > 1 {
+		// queries with a lemma variant: old z3 with lemmas and new z3 without are the usual winners
+		t1 = []task{{solvers[1], files[1]}, {solvers[0], files[0]}, {solvers[1], files[0]}, {solvers[0], files[1]}}
+	} else {
+		t1 = []task{{solvers[1], files[0]}, {solvers[0], files[0]}}
+	}
+	if r, done := race(t1, s1); done {
 		return r
 	}
-	// stage 2: race
-	rctx, cancel := context.WithCancel(ctx)
-	defer cancel()
-	ch := make(chan SolveResult, len(solvers))
-	for _, sp := range solvers {
-		sp := sp
-		go func() { ch <- runOne(rctx, sp, file, timeoutS) }()
+	if timeoutS <= s1 {
+		return SolveResult{Status: "unknown", Solver: "portfolio"}
 	}
-	var last SolveResult
-	for range solvers {
-		rr := <-ch
-		solverTime.add(rr)
-		if rr.Status != "unknown" {
-			cancel()
-			return rr
+	// stage 2: all solvers, all variants, full budget
+	var t2 []task
+	for _, f := range files {
+		for _, sp := range solvers {
+			t2 = append(t2, task{sp, f})
 		}
-		last = rr
 	}
-	last.Status = "unknown"
-	return last
+	r, _ := race(t2, timeoutS)
+	return r
 }
 
 type SolverStats struct {
@@ -116,8 +227,11 @@ func NewSolverStats() *SolverStats {
 func (s *SolverStats) add(r SolveResult) {
 	s.mu.Lock()
 	defer s.mu.Unlock()
+	if os.Getenv("GOVC_TRACE") != "" {
+		fmt.Fprintf(os.Stderr, "trace %s %s %s %.2f\n", r.Solver, r.variant, r.Status, r.Seconds)
+	}
 	s.Seconds[r.Solver] += r.Seconds
-	if r.Status != "unknown" {
+	if r.Status == "unsat" || r.Status == "sat" {
 		s.Wins[r.Solver]++
 	}
 }
@@ -129,4 +243,11 @@ func hashString(s string) uint64 {
 		h *= 1099511628211
 	}
 	return h
+}
+
+func variantOf(file string) string {
+	if strings.HasSuffix(file, "_1.smt2") {
+		return "lemmas"
+	}
+	return "plain"
 }
